@@ -134,6 +134,31 @@ def r17_3(ck: Check) -> None:
                    "leaves carry the ids in list order with their positions")
 
 
+def r17_4(ck: Check) -> None:
+    """structural premises of 'the proof contains the entry at that position and reproduces the commitment'"""
+    s = ck.summ(MT + "get_proof", 0)
+    sp = Spec(s, ("n", "i"))
+    rets = s.returns()
+    leaf = [r for r in rets if r.term == sp.term("n") and [c.term for c in r.pc] == [sp.term("not n.children")]]
+    right = "i >= n.children[1].index"
+    other = "(n.children[0] if %s else n.children[1])" % right
+    into = "(n.children[1] if %s else n.children[0])" % right
+    simp = "MerkleNode(%s.index, (), %s.hash())" % (other, other)
+    rec = "get_proof(%s, i)" % into
+    want = sp.term("MerkleNode(n.index, (%s, %s) if %s else (%s, %s))" % (simp, rec, right, rec, simp))
+    inner = [r for r in rets if r.term == want]
+    from ..engine.match import same_function
+    whole = ("ife", sp.term("not n.children"), sp.term("n"), want)
+    if same_function(s, whole):
+        leaf, inner, rets = [rets[0]], [rets[0]], rets[:2] if len(rets) >= 2 else [rets[0], rets[0]]
+    construct = "get_proof: descend into the child whose leaf range contains the position; replace the sibling subtree by a leaf carrying its hash; keep left/right order"
+    if len(rets) == 2 and len(leaf) == 1 and len(inner) == 1:
+        ck.ok("R17.4", construct, "with node.index = lowest leaf position of the subtree (R17.3) the path ends at the requested entry and every level hashes "
+              "the same ordered pair as the full tree", s.fi.loc)
+    else:
+        ck.violated("R17.4", construct, "get_proof returns %s" % "; ".join(show(r.term)[:300] for r in rets), s.fi.loc)
+
+
 def check(ck: Check) -> None:
     ck.explanations.append(
         "C17 (partly): decides that the header commitment is checked against the root over the whole ordered id list, that no hash input "
@@ -142,5 +167,6 @@ def check(ck: Check) -> None:
     ck.run("R17.1", "header commits to the whole ordered id list", lambda: r17_1(ck))
     ck.run("R17.2", "duplicate-last-element construction absent", lambda: r17_2(ck))
     ck.run("R17.3", "sibling agreement of the two builders", lambda: r17_3(ck))
-    ck.note("not decided: get_proof index arithmetic; second-preimage resistance between leaves and inner nodes (no domain separation: "
+    ck.run("R17.4", "proof extraction: path selection and sibling hashing", lambda: r17_4(ck))
+    ck.note("not decided: that proofs verify on concrete lists (only the structural premises R17.3/R17.4); second-preimage resistance between leaves and inner nodes (no domain separation: "
             "root([a,b,c]) == root([H(a||b), c]))")
